@@ -35,16 +35,16 @@ def parse_to(ty, err):
 
 
 DECODE_SCRIPT = [
-    'case(url::Url::path_segments(url) ~ Some(_)) > if((std::option::Option::unwrap(%s) != "")) > $m0 = %svirtual_host($m0, %sdecode::percent_decode(std::option::Option::unwrap(%s)))' % (SEG, OPT, U, SEG),
-    'case(url::Url::path_segments(url) ~ Some(_)) > if(std::option::Option::is_some(%s)) > return errors::ExtraUrlPathSegmentsSnafu::fail(errors::ExtraUrlPathSegmentsSnafu{url: url})' % SEG,
-    'if(((url::Url::username(url) != "") || std::option::Option::is_some(url::Url::password(url)))) > $m0 = %sauth($m0, auth::Auth::Plain{password: %sdecode::percent_decode(std::option::Option::unwrap_or(url::Url::password(url), "guest")), '
+    'case(url::Url::path_segments(url) ~ Some(_)) > unless(is_empty(std::option::Option::unwrap(%s))) > $m0 = %svirtual_host($m0, %sdecode::percent_decode(std::option::Option::unwrap(%s)))' % (SEG, OPT, U, SEG),
+    'case(url::Url::path_segments(url) ~ Some(_)) > case(%s ~ Some(_)) > return errors::ExtraUrlPathSegmentsSnafu::fail(errors::ExtraUrlPathSegmentsSnafu{url: url})' % SEG,
+    'if((!is_empty(url::Url::username(url)) || (url::Url::password(url) ~ Some(_)))) > $m0 = %sauth($m0, auth::Auth::Plain{password: %sdecode::percent_decode(std::option::Option::unwrap_or(url::Url::password(url), "guest")), '
     'username: %sdecode::percent_decode(match url::Url::username(url) {"" => "guest"; _ => url::Url::username(url)})})' % (OPT, U, U),
     'for(%s) > case(%s ~ "heartbeat") > $m0 = %sheartbeat($m0, %s)' % (QP, K, OPT, parse_to('u16', 'UrlParseHeartbeat')),
     'for(%s) > case(%s ~ "channel_max") > $m0 = %schannel_max($m0, %s)' % (QP, K, OPT, parse_to('u16', 'UrlParseChannelMax')),
     'for(%s) > case(%s ~ "connection_timeout") > $m0 = %sconnection_timeout($m0, Some(std::time::Duration::from_millis(%s)))' % (QP, K, OPT, parse_to('u64', 'UrlParseConnectionTimeout')),
-    'for(%s) > case(%s ~ "auth_mechanism") > if((%s == "external")) > $m0 = %sauth($m0, auth::Auth::External)' % (QP, K, V, OPT),
-    'for(%s) > case(%s ~ "auth_mechanism") > unless((%s == "external")) > return errors::UrlInvalidAuthMechanismSnafu::fail(errors::UrlInvalidAuthMechanismSnafu{mechanism: %s, url: url})' % (QP, K, V, V),
-    'for(%s) > case(%s ~ _) > return errors::UrlUnsupportedParameterSnafu::fail(errors::UrlUnsupportedParameterSnafu{parameter: %s, url: url})' % (QP, K, K),
+    'for(%s) > case(%s ~ "auth_mechanism") > if(("external" == %s)) > $m0 = %sauth($m0, auth::Auth::External)' % (QP, K, V, OPT),
+    'for(%s) > case(%s ~ "auth_mechanism") > unless(("external" == %s)) > return errors::UrlInvalidAuthMechanismSnafu::fail(errors::UrlInvalidAuthMechanismSnafu{mechanism: %s, url: url})' % (QP, K, V, V),
+    'for(%s) > case(%s ~ not "heartbeat" | "channel_max" | "connection_timeout" | "auth_mechanism") > return errors::UrlUnsupportedParameterSnafu::fail(errors::UrlUnsupportedParameterSnafu{parameter: %s, url: url})' % (QP, K, K),
 ]
 
 
@@ -53,16 +53,16 @@ def run(ctx):
         fnp = U + 'populate_host_and_port'
         rows = P.table(ctx, fnp, ['url'])
         site = ctx.site(fnp)
-        NOHOST = '(!url::Url::has_host(url) || (url::Url::host_str(url) == Some("")))'
+        NOHOST = '(!url::Url::has_host(url) || (Some("") == url::Url::host_str(url)))'
         r.check('rows', len(rows) == 6, site, built=len(rows), expected='{host missing?} x {amqp, amqps, other}')
         for x in rows:
             miss = x.conds[0] == (NOHOST, True)
-            present = x.conds[:2] == [('url::Url::has_host(url)', True), ('(url::Url::host_str(url) == Some(""))', False)]
+            present = x.conds[:2] == [('url::Url::has_host(url)', True), ('(Some("") == url::Url::host_str(url))', False)]
             schs = [c[1] for c in x.conds if c[0] == 'url::Url::scheme(url)']
             if not r.check('row:%s' % '&'.join(x.cond_strs()), (miss or present) and len(schs) == 1 and isinstance(schs[0], str), site, built=x.cond_strs(), expected='{host missing or empty | host present} x scheme'):
                 continue
             sch = schs[0]
-            key = '%s:%s' % ('nohost' if miss else 'host', sch.strip('"'))
+            key = '%s:%s' % ('nohost' if miss else 'host', sch.strip('"') if not sch.startswith('not ') else 'other')
             sets = [e for e in x.effects if e.startswith('url::Url::set_host(')]
             r.check(key + ':host-default', (sets == ['url::Url::set_host(url, Some("localhost"))']) if miss else (sets == []), site, built=sets,
                     why='localhost exactly when the host is absent or empty')
@@ -72,7 +72,7 @@ def run(ctx):
             elif sch == '"amqps"':
                 r.check(key + ':port', ports == ['url::Url::set_port(url, Some(std::option::Option::unwrap_or(url::Url::port(url), 5671)))'] and x.value_str() == 'Ok(%sScheme::Amqps)' % U, site, built=(ports, x.value_str()))
             else:
-                r.check(key + ':invalid-scheme', sch == '_' and x.value_str() == 'errors::InvalidUrlSchemeSnafu::fail(errors::InvalidUrlSchemeSnafu{url: url})' and not ports, site, built=(sch, x.value_str()))
+                r.check(key + ':invalid-scheme', sch == 'not "amqp" | "amqps"' and x.value_str() == 'errors::InvalidUrlSchemeSnafu::fail(errors::InvalidUrlSchemeSnafu{url: url})' and not ports, site, built=(sch, x.value_str()))
         r.check('host-condition', len([x for x in rows if x.conds[0] == (NOHOST, True)]) == 3, site, built=rows[0].conds[0][0] if rows else None, expected=NOHOST)
         # decode: ordered script
         scr, evs, ret = A.fn_script(ctx, U + 'decode')
